@@ -1,6 +1,6 @@
 """C04 — an in-handler await of a child never deadlocks and returns it complete."""
 from .. import scenlib as S
-from ._common import flat, mk, t_tree
+from ._common import flat, matrix_jobs, mk, t_tree
 
 META = dict(
     explanation='A handler on bus A dispatches a child to Y (its own bus, another bus that is already running, another bus never '
@@ -36,4 +36,6 @@ def jobs(tier):
             mk('C04', 'par/BA', S.parallel_handlers(('B', 'A')), witnesses=W, max_paths=6000),
             mk('C04', 'child/yield_await/k1', S.child('yield_await', k=1), witnesses=W, max_paths=6000),
         ]
+    out += matrix_jobs('C04', 'm1', tier)
+    out += matrix_jobs('C04', 'm2', tier)
     return flat(out)
